@@ -166,6 +166,8 @@ pub struct InstallerWeights {
     pub reboot: [u32; 3],
     /// plan id: 0 = derived from response (stable for same offer), 1 = fresh per attempt
     pub plan_id_fresh_permille: u32,
+    /// a progress report is polled once and then dropped (cancelled) instead of awaited
+    pub cancel_progress_permille: u32,
 }
 
 impl Default for InstallerWeights {
@@ -176,6 +178,7 @@ impl Default for InstallerWeights {
             max_progress: 4,
             reboot: [60, 20, 20],
             plan_id_fresh_permille: 200,
+            cancel_progress_permille: 0,
         }
     }
 }
@@ -278,6 +281,8 @@ pub struct Profile {
     /// server key configuration: same latest, client's key historical at the server,
     /// server lacks the key, same id with another key
     pub key_server: [u32; 4],
+    /// a neighbour task of the embedder takes the shared storage / app-set lock for a while
+    pub neighbour_permille: u32,
 }
 
 impl Profile {
@@ -322,6 +327,7 @@ impl Profile {
             logging: false,
             admin_reconfigs: 0,
             key_server: [80, 15, 3, 2],
+            neighbour_permille: 0,
         }
     }
 }
